@@ -1,6 +1,6 @@
 """Helpers for check definitions in driver/checks/<ID>.py"""
 
-HOOK_COMMITS = ['5f6fbfb', '545457e']
+HOOK_COMMITS = ['5f6fbfb', '545457e', 'a16f9f9', 'eb18138', '45f2f25']
 PENDING_REASON = {}
 
 ALL3 = [None, 'two', 'one', None]     # CPU shapes cycled over executions
